@@ -19,7 +19,11 @@ type corrCase struct {
 }
 
 func (c *Ctx) runDriver(lines []string) ([]string, error) {
-	if c.driver == "" {
+	return c.runDriverBin(c.driver, lines)
+}
+
+func (c *Ctx) runDriverBin(bin string, lines []string) ([]string, error) {
+	if bin == "" {
 		return nil, fmt.Errorf("no driver")
 	}
 	f, err := os.CreateTemp("", "ikeverif-ops-*.txt")
@@ -39,7 +43,7 @@ func (c *Ctx) runDriver(lines []string) ([]string, error) {
 		return nil, err
 	}
 	defer in.Close()
-	cmd := exec.Command(c.driver)
+	cmd := exec.Command(bin)
 	cmd.Stdin = in
 	var out, errb bytes.Buffer
 	cmd.Stdout = &out
@@ -79,6 +83,50 @@ func (c *Ctx) correspond(s *SuiteStat, cases []corrCase) {
 			c.violate(Violation{Suite: s.Name, Kind: "correspondence", Index: i, Class: "model-vs-impl",
 				Desc:  "Lean model and Go implementation disagree",
 				Input: cs.line, Expected: "model: " + clip(res[i]), Actual: "impl: " + clip(cs.goRes)})
+		}
+	}
+	c.correspondGenerated(s, cases)
+}
+
+// operations the generated model (Gen_message.lean) implements
+func genEligible(line string) bool {
+	for _, p := range []string{"dec msg ", "dec hdr ", "dec pl-", "dec chain-", "enc msg ", "reenc msg "} {
+		if strings.HasPrefix(line, p) {
+			return true
+		}
+	}
+	return false
+}
+
+// the same cases through the model that tools/go2lean generated from the current source
+func (c *Ctx) correspondGenerated(s *SuiteStat, cases []corrCase) {
+	if c.gendriver == "" {
+		return
+	}
+	var idx []int
+	var lines []string
+	for i, cs := range cases {
+		if genEligible(cs.line) {
+			idx = append(idx, i)
+			lines = append(lines, cs.line)
+		}
+	}
+	if len(lines) == 0 {
+		return
+	}
+	res, err := c.runDriverBin(c.gendriver, lines)
+	if err != nil {
+		c.violate(Violation{Suite: s.Name, Kind: "correspondence", Class: "driver-failure", Desc: "generated model: " + err.Error()})
+		return
+	}
+	for k, i := range idx {
+		cs := cases[i]
+		s.Dist["generated-model-cases"]++
+		if res[k] != cs.goRes {
+			s.Dist["disagree"]++
+			c.violate(Violation{Suite: s.Name, Kind: "correspondence", Index: i, Class: "generated-vs-impl",
+				Desc:  "the model generated from the source by tools/go2lean and the Go implementation disagree (translator / GoRt fault)",
+				Input: cs.line, Expected: "generated model: " + clip(res[k]), Actual: "impl: " + clip(cs.goRes)})
 		}
 	}
 }
